@@ -30,8 +30,21 @@ MAX_DISCARD = 0.35
 
 def plan (tier, seed):
     n = 320 if tier == 'quick' else 8000
-    return [dict (i = i, seed = seed) for i in range (n)] + corpus.plan_cases (seed, tier, 1, 3)
+    return [dict (i = i, seed = seed) for i in range (n)] + corpus.plan_cases (seed, tier, 1, 3) + pulse_less (seed)
 # end def plan
+
+def pulse_less (seed):
+    """ a one-segment wire whose only pulse belongs to the wire it joins (it owns none), with loads attached to it by
+        object: whatever the program accepts it must be able to write and read again """
+    out = []
+    for k, att in enumerate ([[['all', 1]], [['all', 1], [2]], [['all', 2]], [['all', 1], ['all', 2]], [['all']], [[1, 2], ['all', 1]]]):
+        for gnd in (False, True):
+            z0 = 1.0 if not gnd else 0.0
+            geo = [gen.wire (1, [0, 0, z0], [0, 0, z0 + 1.0], 0.001, tag = 1), gen.wire (5, [0, 0, z0 + 1.0], [0, 3.0, z0 + 4.0], 0.001, tag = 2)]
+            out.append (dict ( f = 7.1 + 0.01 * (seed % 7), geo = geo, media = ([[0, 0, 0]] if gnd else None), src = [dict (p = [2], v = [1.0, 0.5])]
+                             , loads = [dict (k = 'z', z = [50.0, -12.0], att = att)], style = 'pulse-less', fam = 'pulse-less%d' % k))
+    return out
+# end def pulse_less
 
 def make (c):
     if 'corpus' in c:
@@ -148,6 +161,10 @@ def make (c):
         src = [dict (p = [1], v = [1.0, 0.0])]
     if rng.random () < 0.3:
         src [0]['p'] = [1 + int (rng.integers (0, 2))]
+    # the program's default pulse (5) named explicitly, alone or next to other sources
+    r5 = np.random.default_rng ([c ['seed'], 152, c ['i']])
+    if r5.random () < 0.2 and sum (g ['n'] for g in geo if g ['k'] == 'w') >= 8:
+        src [int (r5.integers (0, len (src)))]['p'] = [5]
     spec ['src'] = src
     # loads
     loads = []
@@ -410,6 +427,31 @@ def check (c):
         d1 = sorted (set (text1.split ('\n')) - set (text2.split ('\n'))) [:3]
         d2 = sorted (set (text2.split ('\n')) - set (text1.split ('\n'))) [:3]
         bad ('fixed-point', 'second-generation-differs', 'options written for the re-read model differ: only first %r, only second %r' % (d1, d2))
+    # ---- options written, a further load registered on the same object (one of a kind that is numbered before the
+    # loads already there, and a second one), options written again: the second list describes the model as it is now
+    ra = np.random.default_rng ([int (common.sha (json.dumps (common.jsonable (argv))) [:8], 16), 151])
+    if ra.random () < 0.6 and len (m.pulses) >= 2:
+        MM = common.repo ()
+        mx = common.build_argv (argv)       # an object of its own: the one above is judged further below
+        common.guarded (lambda: mx.as_cmdline (), 'as_cmdline')
+        p1, p2 = (int (x) for x in ra.permutation (len (mx.pulses)) [:2])
+        common.guarded (lambda: mx.register_load (MM.Impedance_Load (complex (37.0, -11.0)), p1), 'register_load')
+        if ra.random () < 0.5:
+            common.guarded (lambda: mx.register_load (MM.Series_RLC_Load (4.0, 1.5e-6, None), p2), 'register_load')
+        t3 = common.guarded (lambda: mx.as_cmdline (), 'as_cmdline')
+        mon ['written-again'] = 1
+        r3 = common.run_main (t3.split (), return_mininec = True)
+        if r3 ['kind'] == 'exception':
+            raise common.Repo_Crash (r3 ['exc'], 'main(read back)')
+        if r3 ['model'] is None:
+            bad ('written-again', 'written-options-rejected', 'options written again after a further load was registered are rejected: %s' % (r3 ['out'] + r3 ['err']).strip ().split ('\n') [-1] [:140])
+        else:
+            da, db = describe (mx), describe (r3 ['model'])
+            # (which kinds of load sit on which pulse, exactly; their sum to one percent - the six written digits of a
+            # circuit near resonance are judged by the monitors above)
+            if da ['load_kinds'] != db ['load_kinds'] or any (abs (da ['load_z'][k] - db ['load_z'][k]) > 1e-2 * abs (da ['load_z'][k]) + 1e-9 for k in da ['load_z']):
+                bad ('written-again', 'loads-after-late-registration', 'after registering a further load the written list puts loads on pulses %s with %s, the model has %s with %s'
+                     % (sorted (k + 1 for k in db ['load_z']), [np.round (db ['load_z'][k], 3) for k in sorted (db ['load_z'])] [:4], sorted (k + 1 for k in da ['load_z']), [np.round (da ['load_z'][k], 3) for k in sorted (da ['load_z'])] [:4]))
     # ---- field requests handed to as_cmdline (angles, near-field grid, power levels, distance, print options):
     # the written list must be accepted and ask for the same tables (six printed digits)
     rq = np.random.default_rng ([int (common.sha (json.dumps (common.jsonable (argv))) [:8], 16), 15])
